@@ -3,7 +3,7 @@
 # legitimate change of /repo, e.g. a fix commit, then review `git diff baselines/` and commit).
 set -e
 cd /verif/checker && GOFLAGS=-mod=vendor GOPROXY=off GOWORK=off go build -o /verif/bin/gbverif ./cmd/gbverif
-for pair in bounds:bounds switch:switches call:calls errexit:errexits cond:conds readguard:readguard write:writes callarg:callargs slicebound:slicebounds storeconst:storeconsts; do
+for pair in bounds:bounds switch:switches call:calls errexit:errexits cond:conds readguard:readguard write:writes callarg:callargs slicebound:slicebounds storeconst:storeconsts provenance:provenance loop:loops; do
   hook=${pair%%:*}; file=${pair##*:}
   /verif/bin/gbverif debug $hook-baseline 2>/dev/null | sed -n '/BASELINE-BEGIN/,$p' | tail -n +2 > /tmp/$file.json.new
   python3 -c "import json,sys;json.load(open('/tmp/$file.json.new'))"
